@@ -148,6 +148,8 @@ pub struct Trace {
     pub executed_ops: usize,
     /// max(stack+altstack) observed after any opcode
     pub max_stack: usize,
+    /// per evaluated script, in evaluation order: (non-push opcode count, max stack+altstack)
+    pub per_script: Vec<(usize, usize)>,
     /// (pubkey bytes, sig bytes incl. hashtype, success)
     pub sig_checks: Vec<(Vec<u8>, Vec<u8>, bool)>,
     /// (opcode, preimage, digest)
@@ -544,7 +546,13 @@ pub fn eval_script(
 ) -> Result<(), ScriptError> {
     let initial_len = stack.len();
     let mut st = St { stack, floor: initial_len };
+    let (save_ops, save_stack) = (trace.op_count, trace.max_stack);
+    trace.op_count = 0;
+    trace.max_stack = 0;
     let r = eval_inner(&mut st, script, flags, checker, sv, exec, trace);
+    trace.per_script.push((trace.op_count, trace.max_stack));
+    trace.op_count = trace.op_count.max(save_ops);
+    trace.max_stack = trace.max_stack.max(save_stack);
     let consumed = initial_len - st.floor.min(initial_len);
     if consumed > trace.consumed_initial {
         trace.consumed_initial = consumed;
